@@ -94,6 +94,9 @@ namespace awkward {
     if (length_ == 0) {
       err = util::ForthError::rewind_beyond;
     }
+    else if (num_times > INT64_MAX - length_) {
+      err = util::ForthError::rewind_beyond;
+    }
     else if (num_times > 0) {
       int64_t next = length_ + num_times;
       maybe_resize(next);
